@@ -20,6 +20,7 @@ Pick(o, c, v, k, p, w) ==
   ELSE IF k = 17 THEN Del(o)
   ELSE IF k = 18 /\ PdelPats # {} THEN Pdel(p)
   ELSE IF k = 19 THEN Drop
+  ELSE IF k = 20 /\ WithStr THEN SetStr(o)
   ELSE Set(o, c, v, FALSE)
 SimStep == /\ Len(hist) < MaxHist
            /\ Pick(RE(Objs), RE(Cells), RE(SetVals), RE(1..20), RE(PdelPats \cup {<<"*">>}), RE(FVals))
